@@ -40,6 +40,8 @@ ARG_SHAPES = [
     ("param", U("-", B("**", P("a"), N("2")))), ("param", B("*", U("-", B("**", P("a"), N("3"))), P("b"))), ("param", U("-", B("**", B("+", P("a"), N("1")), N("2")))),
     # parameter names that look like registers (q1a), constants (pix), functions (sqrt2) or p-arrays (p0)
     ("param", B("-", P("q1a"), P("a"))), ("param", B("*", P("q2_0"), P("pix"))), ("param", B("+", P("sqrt2"), P("p0"))),
+    # parameter names that mean something to the host language or to SymPy
+    ("param", B("+", P("lambda"), P("E"))), ("param", B("*", P("I"), B("-", P("S"), N("2")))), ("param", B("/", P("None"), P("is"))),
     ("reg", Q(0)), ("reg", B("*", N("2"), Q(0))), ("reg", B("+", Q(0), Q(1))), ("reg", B("-", Q(1), B("*", Q(0), Q(3)))),
     ("reg", B("/", Q(1), Q(0))), ("reg", B("-", N("1"), Q(10))), ("reg", B("*", V("x"), Q(0))), ("reg", U("-", B("**", Q(0), N("2")))),
 ]
